@@ -682,14 +682,19 @@ impl Gen {
                 funds.push(coin(7, "wbtc")); // foreign asset
             }
         }
+        let mut target_owner: Option<String> = None;
         let (unlocking_duration, lock_position_identifier) = if locked {
             let ud = self.unlock_duration(c);
             let lid = match self.rng.below(8) {
                 0..=2 => None,
                 3 | 4 => {
-                    // an existing position (own or foreign)
+                    // an existing position (own or foreign), preferably one holding this pool's LP
+                    let same: Vec<&mantra_dex_std::farm_manager::Position> =
+                        c.obs.positions.iter().filter(|q| q.open && q.lp_asset.denom == pi.lp_denom).collect();
                     let v: Vec<&mantra_dex_std::farm_manager::Position> = c.obs.positions.iter().collect();
-                    self.rng.pick_opt(&v).map(|p| {
+                    let pick = if !same.is_empty() && self.rng.chance(2, 3) { self.rng.pick_opt(&same) } else { self.rng.pick_opt(&v) };
+                    pick.map(|p| {
+                        target_owner = Some(p.receiver.to_string());
                         p.identifier.clone()
                     })
                 }
@@ -699,7 +704,13 @@ impl Gen {
         } else {
             (None, if self.rng.chance(1, 50) { Some("zzz".to_string()) } else { None })
         };
-        let receiver = self.receiver(c, &sender);
+        let mut receiver = self.receiver(c, &sender);
+        // topping up somebody's position "on their behalf": receiver = the position's owner
+        if let Some(o) = target_owner {
+            if self.rng.chance(1, 3) {
+                receiver = Some(o);
+            }
+        }
         Op::Pm {
             sender,
             msg: PmMsg::ProvideLiquidity {
@@ -723,6 +734,8 @@ impl Gen {
             3 => f.max_unlocking_duration + 1,
             4 => 200_000,
             5 => YEAR / 2,
+            // present but zero / one second: "is there a lock" and "is the lock positive" differ
+            6 if self.rng.chance(1, 2) => self.rng.below(2),
             _ => self.rng.range(f.min_unlocking_duration, f.max_unlocking_duration),
         }
     }
